@@ -466,6 +466,11 @@ def compare(ctx, case, db, expected, recs, branches, deriver, what):
             ctx.mon("children of special-looking keys compared")
             if want:
                 ctx.mon("children of special-looking keys compared (non-empty)")
+            if key in have or key in kids:
+                # a feature naming ITSELF as Parent: whether it is its own child is not said - not judged
+                ctx.mon("children of special-looking keys: a feature names itself as Parent (self-link not judged)")
+                have.discard(key)
+                kids.discard(key)
             if have != want or kids != want:
                 ctx.violation(case, {"why": "%s: the features naming the key %r as Parent are not its children" % (what, key),
                                      "level-1 rows": sorted(have), "children()": sorted(kids), "expected": sorted(want), "text": text})
